@@ -68,8 +68,11 @@ bool set_present(int i, int slot, int set, int64_t n)
 {
   return ((n + set + slot + i) % 3) != 0;
 }
+bool g_counter_nonmono = false;  // set per run from the knob: counters report totals that go down too
 int64_t observed_value(int kind, int i, int slot, int set, int64_t n)
 {
+  if ((kind == I_OBS_COUNTER_LONG || kind == I_OBS_COUNTER_DOUBLE) && g_counter_nonmono)
+    return (n * 7919 + slot * 131 + set * 17 + i * 3) % 997;  // non-negative, not monotone
   if (kind == I_OBS_COUNTER_LONG || kind == I_OBS_COUNTER_DOUBLE)
     return 1000 * (slot + 1) + 100 * set + 5 * n * (n + 1) / 2 + n;  // strictly increasing in n
   // non-monotone
@@ -322,6 +325,7 @@ World g_keep;
 void body(const Case &c)
 {
   hist().clear();
+  g_counter_nonmono = c.knob("counter_nonmono", 0) != 0;
   World w;
   W          = &w;
   w.c        = &c;
@@ -405,6 +409,7 @@ void body(const Case &c)
 // -------------------------------------------------------------------- oracle
 void check(const Case &c, const vsim::RunResult &)
 {
+  g_counter_nonmono = c.knob("counter_nonmono", 0) != 0;
   const auto &H = hist();
   World &w      = g_keep;
   int ninstr = (int)c.knob("ninstr", 1), nread = (int)c.knob("nreaders", 1);
@@ -759,6 +764,11 @@ void generate(const std::string &, Rng &wl, Rng &fl, Case &c)
       c.set(fmt("initial_cb%d", i).c_str(), (int64_t)wl.range(0, 7));
     }
     c.stratum = "observable";
+    if (wl.chance(0.3))
+    {
+      c.set("counter_nonmono", 1);
+      c.stratum = "observable.totals_go_down";
+    }
     // control task: add / remove callbacks, destroy instruments
     TaskProg ctl;
     int n = (int)wl.range(0, vsim::tier_scale() > 1 && wl.chance(0.5) ? 10 : 6);
